@@ -945,7 +945,7 @@ func runCombined(r *rand.Rand, ops []*opInfo, engines []engine, budget int) {
 		bin := m.Bytes()
 		mods := make([]api.Module, len(engines))
 		for i, e := range engines {
-			mod, err := e.rt.InstantiateWithConfig(ctx, bin, wazero.NewModuleConfig().WithName(""))
+			mod, err := safeInstantiate(ctx, e.rt, bin)
 			if err != nil {
 				rep.Violate(hx.Violation{Kind: "impl-violation", Signature: "C05:compile-fails:combined:" + e.name, What: "engine cannot compile a valid module evaluating several instructions in one function: " + err.Error(), Input: tnames(params)})
 				return
@@ -1058,7 +1058,7 @@ func runOp(r *rand.Rand, o *opInfo, engines []engine, budget int) {
 		bin := buildModule(o, imm, cts)
 		mods := make([]api.Module, len(engines))
 		for i, e := range engines {
-			mod, err := e.rt.InstantiateWithConfig(ctx, bin, wazero.NewModuleConfig().WithName(""))
+			mod, err := safeInstantiate(ctx, e.rt, bin)
 			if err != nil {
 				rep.Violate(hx.Violation{Kind: "impl-violation", Signature: "C05:compile-fails:" + o.name + ":" + e.name, What: "engine cannot compile a valid one-instruction module: " + err.Error(), Input: o.name})
 				return
@@ -1217,4 +1217,14 @@ func main() {
 	rep.Count(fmt.Sprintf("opcodes:%d", n))
 	rep.Sample(map[string]any{"op": "i32.div_s", "query": "c05 s i32.div_s 80000000 ffffffff", "spec": "trap:overflow"})
 	rep.Write(orc)
+}
+
+// safeInstantiate: a Go panic escaping CompileModule / InstantiateModule is reported like a compile error.
+func safeInstantiate(ctx context.Context, rt wazero.Runtime, bin []byte) (m api.Module, err error) {
+	defer func() {
+		if r := recover(); r != nil {
+			err = fmt.Errorf("Go panic: %v", r)
+		}
+	}()
+	return rt.InstantiateWithConfig(ctx, bin, wazero.NewModuleConfig().WithName(""))
 }
